@@ -150,6 +150,23 @@ package shaping
 //@   loop 1 invariant [range] forall(k, 0, rangeindex+1, 0 <= int(finalLine[k].VisualIndex) && int(finalLine[k].VisualIndex) < len(finalLine))
 //@   loop 1 invariant [all-opposite-so-far] implies(rangeindex >= 0 && forall(k, 0, rangeindex+1, oppRun(finalLine, dir, k)), bidiStart == 0)
 //
+// postProcessLine: "... also after a truncator has been appended": the line that is returned satisfies the same
+// ordering clauses as computeBidiOrdering establishes, for the paragraph direction, whether or not a truncator run was
+// appended; and the run whose last glyph is trimmed is the visually last one in paragraph direction whenever the
+// ordering assigns that position to some run.
+//@ spec visuallyLast(dir di.Direction, n int) int = ite(bool(dir.Progression()), 0, n-1)
+//@ func LineWrapper.postProcessLine C08
+//@   mode int
+//@   requires len(finalLine) < 2147483647 && l.breaker != nil
+//@   ensures [range] forall(k, 0, len(result0.Line), 0 <= int(result0.Line[k].VisualIndex) && int(result0.Line[k].VisualIndex) < len(result0.Line))
+//@   ensures [same-direction-fixed] forall(k, 0, len(result0.Line), implies(!oppRun(result0.Line, old(l.config.Direction), k), int(result0.Line[k].VisualIndex) == basePos(old(l.config.Direction), len(result0.Line), k)))
+//@   ensures [all-opposite-reversed] implies(forall(k, 0, len(result0.Line), oppRun(result0.Line, old(l.config.Direction), k)), forall(k, 0, len(result0.Line), int(result0.Line[k].VisualIndex) == basePos(old(l.config.Direction), len(result0.Line), len(result0.Line)-1-k)))
+//@   ensures [truncator-last] implies(len(result0.Line) != len(finalLine0), len(result0.Line) == len(finalLine0)+1)
+//@   modifies unspecified
+//@   loop 1 invariant [goal] 0 <= goalIdx && goalIdx < len(finalLine) && goalIdx == visuallyLast(l.config.Direction, len(finalLine))
+//@   loop 1 invariant [not-yet] forall(k, 0, rangeindex+1, int(finalLine[k].VisualIndex) != visuallyLast(l.config.Direction, len(finalLine)))
+//@   assert_at call RecomputeAdvance#1 : [trims-visually-last] int(finalLine[goalIdx].VisualIndex) == visuallyLast(l.config.Direction, len(finalLine)) || forall(k, 0, len(finalLine), int(finalLine[k].VisualIndex) != visuallyLast(l.config.Direction, len(finalLine)))
+//
 // ---------------------------------------------------------------------------------------------
 // Properties C02/C03: run cutting and break validity. mapping is the rune -> first-glyph-of-cluster map of run.
 //@ spec isRTL(d di.Direction) bool = bool(d.Progression())
@@ -357,8 +374,6 @@ package shaping
 //@     | implies(result == newLineBeforeBreak && l.config.BreakPolicy == WhenNecessary, config.truncating)
 //@   loop 2 invariant [grapheme-breaking-justified] l.config.BreakPolicy != Never && (result == truncated || result == newLineBeforeBreak || result == cannotFit) &&
 //@     | implies(result == newLineBeforeBreak && l.config.BreakPolicy == WhenNecessary, config.truncating)
-//@   modifies unspecified
-//@ trusted LineWrapper.postProcessLine
 //@   modifies unspecified
 //
 // WrapNextLine: the per-line limits handed to the line builder: the line may use maxWidth, and when this is the last
